@@ -5,7 +5,10 @@ from ..rules import factor_tail, r9_sibling, r5_grow, r11_kinds, misc
 from . import _drv
 
 R9_UNITS = ['gstrf.c', 'column_dfs.c', 'snode_dfs.c', 'copy_to_ucol.c', 'pruneL.c', 'panel_dfs.c', 'util.c', 'memory.c']
-TWINS = [('SRC/util.c', 'countnz', 'SRC/util.c', 'ilu_countnz', 'ext')]
+TWINS = [('SRC/util.c', 'countnz', 'SRC/util.c', 'ilu_countnz', 'ext'),
+         # the relaxed-supernode search decides the supernode partition the structure is built on
+         ('SRC/relax_snode.c', 'relax_snode', 'SRC/ilu_relax_snode.c', 'ilu_relax_snode', 'ext'),
+         ('SRC/heap_relax_snode.c', 'heap_relax_snode', 'SRC/ilu_heap_relax_snode.c', 'ilu_heap_relax_snode', 'ext')]
 
 
 def run(tier):
